@@ -207,14 +207,97 @@ def job_config(job):
     return res
 
 
+# ---------------------------------------------------------------- kernel E: the serde visitor of one pattern string
+# A Deserializer hands a string to a Visitor through one of three entries: `visit_borrowed_str` (serde_json::from_str, when the JSON
+# text of the string has no escape), `visit_str` (the same with escapes: the text is unescaped into a scratch buffer) or
+# `visit_string` (serde_json::from_value). serde's documented defaults: visit_borrowed_str -> visit_str, visit_string -> visit_str,
+# visit_str -> Err(invalid type). Whatever entry is used, a pattern must be accepted iff the regex crate accepts it.
+SERDE_DEFAULT = {'visit_borrowed_str': 'visit_str', 'visit_string': 'visit_str', 'visit_str': None}
+
+
+@model(r'^regex::Regex::new$')
+def m_regex_new(it, ctx, a, m, f):
+    ok = getattr(ctx, 'regex_valid', None)
+    if ok is None:
+        raise Unsupported('regex::Regex::new outside the pattern-visitor kernel')
+    return Adt('Result', 'Ok', [Opaque('regex', S(a[0]))]) if ctx.decide(ok) else Adt('Result', 'Err', [Opaque('regex-error')])
+
+
+@model(r'^options::Regex$')
+def m_regex_ctor(it, ctx, a, m, f):
+    return Adt('Regex', None, [a[0]])          # the tuple-struct constructor used as a function (`.map(Regex)`)
+
+
+def job_regex_visitor(job):
+    it, info = load(verbose=False)
+    st = Stats()
+    res = {'violations': [], 'inconclusive': [], 'samples': [], 'obligations': 0, 'distinct': [], 'vacuity': {}, 'kernels': {}}
+    impls = {}
+    for name, fs in it.prog.fns.items():
+        for mname in SERDE_DEFAULT:
+            if name.endswith('::' + mname) and 'options.rs' in name and 'RegexVisitor' in fs[0].sig:
+                impls[mname] = fs[0]
+    if not impls:
+        res['inconclusive'].append('pattern visitor: no visit_* method of RegexVisitor in the MIR dump')
+        res['stats'] = common.stats_dict(st); return res
+    n = job['len']
+    for entry in SERDE_DEFAULT:
+        target = entry
+        while target is not None and target not in impls:
+            target = SERDE_DEFAULT[target]
+        res['obligations'] += 1
+        if target is None:
+            res['violations'].append({'kernel': 'pattern-visitor', 'obligation': 'a pattern string is read whichever way the deserializer hands it over (%s)' % entry,
+                                      'json': {'customElementPatterns': ['^x\\-' if entry == 'visit_str' else '^x-']}, 'info': {'entry': entry, 'resolved': 'serde default: invalid type'}})
+            continue
+        cs = [z3.BitVec('p%s_%d' % (entry[6:8], j), 7) for j in range(n)]
+        text = SStr([z3.ZeroExt(CHW - 7, c) for c in cs])
+        valid = z3.Bool('regex_ok_' + entry)
+
+        def body(ctx, target=target, text=text, valid=valid, entry=entry):
+            ctx.regex_valid = valid
+            r = it.run(ctx, impls[target], [Adt('RegexVisitor', None, []), text if target == 'visit_string' else mkref(text)])
+            ctx.result = r
+            okv = ctx.decide(valid)
+            return [Obligation('a pattern is accepted iff the regex engine accepts it (%s)' % entry, (r.variant == 'Ok') == okv, {'entry': entry, 'resolved': target, 'regex_accepts': okv, 'result': r.variant})]
+        for r in explore(body, [z3.And(z3.UGE(c, 0x20), z3.ULE(c, 0x7e)) for c in cs], st):
+            if r.kind == 'ok':
+                res['distinct'].append('rx/%s/%s' % (entry, ''.join('1' if d else '0' for d in r.ctx.taken)))
+                res['vacuity']['pattern visitor reached the oracle'] = True
+            elif r.kind == 'violation':
+                res['violations'].append({'kernel': 'pattern-visitor', 'obligation': r.detail, 'json': {'customElementPatterns': ['^x\\-']}, 'info': harness._plain(r.model, r.obligation.info)})
+            elif r.kind == 'panic':
+                res['violations'].append({'kernel': 'pattern-visitor', 'obligation': 'panic: ' + str(r.detail), 'json': None})
+            else:
+                res['inconclusive'].append('pattern visitor %s: %s %s' % (entry, r.kind, str(r.detail)[:200]))
+    res['samples'].append({'kernel': 'RegexVisitor', 'overrides': sorted(impls)})
+    res['stats'] = common.stats_dict(st)
+    return res
+
+
 def confirm_config(v):
     """replay a config-kernel witness on the native build (serde_json + the real Options): True = the violation shows there too"""
+    if v.get('kernel') == 'pattern-visitor':
+        # the three ways serde_json hands a string over: from_str without / with an escape in the JSON text, from_value
+        entry = (v.get('info') or {}).get('entry')
+        e3 = driver.E3()
+        try:
+            if entry == 'visit_string':
+                r = e3.run('const a = 1;', {'customElementPatterns': ['^x-']})
+            else:
+                r = e3.run('const a = 1;', None, options_text='{"customElementPatterns": ["^x%s-"]}' % ('\\\\' if entry == 'visit_str' else ''))
+        finally:
+            e3.close()
+        v['native'] = {k: r.get(k) for k in ('options_error', 'options_debug')}
+        return 'options_error' in r
+    if v.get('kernel') not in ('config', 'defaults'):
+        return True         # (the pattern-list kernel runs on the native build itself)
     js = v.get('json') if v.get('kernel') != 'defaults' else {}
     if js is None:
         return False
     e3 = driver.E3()
     try:
-        r = e3.run('const a = 1;', js)
+        r = e3.run('const a = 1;', None, options_text=json.dumps(js))      # JSON text, read as the plugin entry reads it
     finally:
         e3.close() if hasattr(e3, 'close') else None
     v['native'] = {k: r.get(k) for k in ('options_error', 'options_debug')}
@@ -414,6 +497,7 @@ def main(argv):
     cfg_jobs.append({'kind': 'map', 'lens': []})
     res = common.run_jobs(MOD, 'job_config', cfg_jobs)
     res += common.run_jobs(MOD, 'job_patterns', [{'patterns': pl} for pl in PATTERN_LISTS])
+    res += common.run_jobs(MOD, 'job_regex_visitor', [{'len': n} for n in ((3,) if quick else (1, 3, 6))])
     for r in res:
         for v in r.pop('violations', []):
             rep.violations.append({'role': 'config:' + str(v.get('obligation') or v.get('field')), 'reproduced': confirm_config(v), 'replay': common.save_replay(PROP, v, {'config.json': json.dumps(v.get('json'))}),
